@@ -473,6 +473,23 @@ func c16MXLookup(t *testing.T, out *vh.Out, op string) {
 	out.Stat(fmt.Sprintf("mxlookup.reply-class%d", seen.Stored.Code/100))
 }
 
+// c16Interrupted: 0-3 wrappers (resolver error with a cause, temporariness marker, field wrapper)
+// around a cancelled context, an expired deadline or an opaque cause.
+func c16Interrupted(r *vh.Rng) *verr.Node {
+	n := &verr.Node{Kind: []string{"C", "C", "D", "P", "N"}[r.Intn(5)], Temp: r.Bool()}
+	for k := r.Intn(4); k > 0; k-- {
+		switch r.Intn(3) {
+		case 0:
+			n = &verr.Node{Kind: "Q", Temp: r.Bool(), Inner: n}
+		case 1:
+			n = &verr.Node{Kind: "T", Temp: r.Bool(), Inner: n}
+		default:
+			n = &verr.Node{Kind: "F", Inner: n}
+		}
+	}
+	return n
+}
+
 // ---------------------------------------------------------------- several recipients
 
 func c16MErr(out *vh.Out, op string) {
@@ -551,6 +568,19 @@ func TestVerifC16NextHop(t *testing.T) {
 	}
 	for i := 0; i < n/40; i++ {
 		run("C16 mxlookup " + verr.Gen(r, r.Intn(3), r.Chance(50)).String())
+	}
+	// an interrupted lookup: the cancellation / the deadline of the context as the resolver and the
+	// net package hand it on (DNSError with a cause, marker and field wrappers, %w), bare too
+	for _, tr := range []string{"C", "Q 0 C", "Q 1 C", "F - - _ C", "T 0 C", "T 1 C", "Q 0 F - - _ C", "F - - _ Q 0 C", "Q 0 D", "Q 1 D", "Q 0 P", "Q 1 P", "Q 0 N 1", "Q 1 N 0", "F - - _ D"} {
+		run("C16 mxlookup " + tr)
+		run("C16 wce 0 " + vh.HexRunes("mx.example.org") + " V " + tr)
+		run("C16 wce 1 " + vh.HexRunes("") + " L V " + tr)
+		run("C16 nomx P " + tr + " then ok")
+	}
+	for i := 0; i < n/40; i++ {
+		tr := c16Interrupted(r).String()
+		run("C16 mxlookup " + tr)
+		run(fmt.Sprintf("C16 wce %d %s V %s", r.Intn(2), vh.HexRunes("mx.example.org"), tr))
 	}
 	for i := 0; i < n/20; i++ {
 		k := 2 + r.Intn(3)
